@@ -21,9 +21,17 @@ Obs == [all |-> all, cache |-> cache, flag |-> flag, removed |-> removed,
 
 NoF == [a \in Addrs |-> "none"]
 
-Step(op, a, t, o, k, f, win, ret) ==
-  hist' = Append(hist, [op |-> op, a |-> a, t |-> t, o |-> o, k |-> k, f |-> f,
+StepO(op, a, t, o, k, f, win, ret, ord) ==
+  hist' = Append(hist, [op |-> op, a |-> a, t |-> t, o |-> o, k |-> k, f |-> f, order |-> ord,
                         win |-> win, ret |-> ret, obs |-> Obs'])
+Step(op, a, t, o, k, f, win, ret) == StepO(op, a, t, o, k, f, win, ret, <<>>)
+
+\* the orders in which the hosts of a ReplaceAll argument list can be passed (the set does not
+\* depend on it; the published list must be sorted by address whatever the order)
+Orders(f) ==
+  LET as == {a \in Addrs : f[a] # "none"}
+      n  == Cardinality(as)
+  IN {p \in [1..n -> as] : \A i \in 1..n, j \in 1..n : i # j => p[i] # p[j]}
 
 AddWin(o, a, t, fl) ==
   (IF W_ReaddOtherType(o, a, t) THEN {"readd-other-type"} ELSE {}) \cup
@@ -49,7 +57,8 @@ GenNext ==
      \/ \E o \in Objs :
           \/ AddExisting(o) /\ Step("Add", oaddr[o], otype[o], o, "", NoF, AddWin(o, oaddr[o], otype[o], flag[o]), TRUE)
           \/ RemoveExisting(o) /\ Step("Remove", oaddr[o], otype[o], o, "", NoF, RemoveWin(oaddr[o], otype[o], o), TRUE)
-     \/ \E f \in ReplaceArgs : ReplaceAll(f) /\ Step("ReplaceAll", 0, "", nobj + 1, "", f, {"replace-all"}, TRUE)
+     \/ \E f \in ReplaceArgs : \E ord \in Orders(f) :
+          ReplaceAll(f) /\ StepO("ReplaceAll", 0, "", nobj + 1, "", f, {"replace-all"}, TRUE, ord)
      \/ \E o \in Objs, k \in {"healthy", "unhealthy"} :
           MarkBegin(o, k) /\ Step("MarkBegin", oaddr[o], otype[o], o, k, NoF, {}, flag[o] # (k = "healthy"))
      \/ \E m \in inflight :
